@@ -16,6 +16,7 @@ func init() { register("C08", false, runC08) }
 
 func runC08(c *Ctx) {
 	dropOrphanHelpers(c)
+	debugDumpFuncs(c) // VX_DUMP_FN=... prints functions as the rules see them
 	c.Clauses = []string{
 		"C08.a end-of-input marker emitted exactly once, after the loop on every exit, followed by the only close of the channel and the closed signal; the close request is polled at the loop head before each read; Close only signals and cannot block",
 		"C08.b ownership transfer: a parser-owned slice stored into a delivered sequence is replaced by fresh storage before the dispatch function returns (never re-sliced and reused)",
